@@ -50,7 +50,8 @@ def c15_case(draw, tier):
 
     if eq == "mutate_split":
         k = draw(st.integers(2, 3))
-        names = draw(st.permutations(["p", "q", "zz1", "zz2", "a", "b"]))[:k]
+        agg_names = {n for n, c in t.visible if c in t.agg_cols}  # (K03: the columns of an ungrouped summarize stay)
+        names = [n for n in draw(st.permutations(["p", "q", "zz1", "zz2", "a", "b"])) if n not in agg_names][:k]
         items = [[n, expr(draw(st.sampled_from(["int", "float", "bool", "str"])))] for n in names]
         L = [{"out": "L1", "verb": "mutate", "in": p, "items": items}]
         prev = p
@@ -292,7 +293,12 @@ class C15(Check):
                 if a.height > 0:
                     rows_seen = True
             except oracle.Mismatch as mm:
-                # Polars optimizer bug?  compare the unoptimised plans
+                from ..pipeline_oracle import sqlite_full_join_quirk
+
+                if kind == "sqlite" and any(
+                        full[sd]["steps"] and sqlite_full_join_quirk(full[sd], full[sd]["steps"][-1]["out"]) for sd in ("left", "right")):
+                    out.count("engine_quirk:sqlite_full_join_in_compound_subquery")  # DESIGN 4.15 (h)
+                    continue
                 out.fail("not-equivalent", f"{kind}:{case['eq']}:{mm.kind}", f"{kind}: the two sides of `{case['eq']}` differ: {mm}")
         out.nontrivial = out.discard is None and rows_seen
         return out
